@@ -539,6 +539,34 @@ func (h H) followerTimerProtocol(rule string) {
 	for k, c := range h.P.CallsTo(rt, reset) {
 		h.gate(rule+" resetTimer-only-voters", h.site(rt, reset, k), c.(ssa.Instruction), core.BoolAtom("(*follower).canStartElection(follower)#0", true))
 	}
+	// re-arming ends the "election aborted" episode: stateLoop re-arms the
+	// timer after every executed task while the flag is set, so a flag that
+	// sticks lets anything that submits tasks (monitoring, say) postpone
+	// elections for ever
+	for k, r := range core.Returns(rt) {
+		res := rfi.MustCrossOrPass(r, func(a core.Atom) bool {
+			return a.Op == "false" && strings.HasPrefix(a.L, "(*follower).canStartElection(")
+		}, nil, func(in ssa.Instruction) bool {
+			st, ok := in.(*ssa.Store)
+			return ok && rfi.Sym(st.Addr).String() == "follower.electionAborted" && rfi.Sym(st.Val).String() == "false"
+		})
+		h.C.Check(rule+" rearm-clears-aborted-flag", fmt.Sprintf("(*follower).resetTimer return#%d", k+1), res.OK, h.pos(r), "the election timer is re-armed and electionAborted stays set: "+res.Witness)
+	}
+	// and stateLoop's task-induced re-arm is only for followers whose election was aborted
+	ex := h.fn("raft:(*Raft).executeTask")
+	for k, c := range h.P.CallsTo(sl, rt) {
+		in := c.(ssa.Instruction)
+		afterTask := false
+		for _, tc := range h.P.CallsTo(sl, ex) {
+			if core.Dominates(tc.(ssa.Instruction), in) {
+				afterTask = true
+			}
+		}
+		if !afterTask {
+			continue
+		}
+		h.gateLoose(rule+" task-rearm-only-if-aborted", h.site(sl, rt, k), in, core.BoolAtom("new:follower#1.electionAborted", true))
+	}
 	// onTimeout forgets the leader
 	ot := h.fn("raft:(*follower).onTimeout")
 	sl2 := h.fn("raft:(*Raft).setLeader")
@@ -712,9 +740,10 @@ func (h H) configSetters(rule string) {
 	lc := h.fn("raft:(*leader).changeConfig")
 	ok, why, _ = h.callsOnEveryPath(lc, ch, "Config")
 	check("(*leader).changeConfig installs the configuration", ok, why, lc)
-	ok, why = h.storesOnEveryPath(lc, "leader.numVoters", func(v string, _ *ssa.Store) bool { return v == "(Config).numVoters(Config)" })
+	// (from the parameter, or from configs.Latest after it was installed: which of the two is decided by the voter-cache rule)
+	ok, why = h.storesOnEveryPath(lc, "leader.numVoters", func(v string, _ *ssa.Store) bool { return strings.HasPrefix(v, "(Config).numVoters(") })
 	check("(*leader).changeConfig refreshes numVoters", ok, "the voter count must be recomputed from the new configuration on every path: "+why, lc)
-	ok, why = h.storesOnEveryPath(lc, "leader.node", func(v string, _ *ssa.Store) bool { return v == "Config.Nodes[leader.Raft.storage.nid]" })
+	ok, why = h.storesOnEveryPath(lc, "leader.node", func(v string, _ *ssa.Store) bool { return strings.HasSuffix(v, ".Nodes[leader.Raft.storage.nid]") })
 	check("(*leader).changeConfig refreshes node", ok, "the leader's own node entry must be re-read from the new configuration on every path: "+why, lc)
 	// Raft.setCommitIndex
 	sc := h.fn("raft:(*Raft).setCommitIndex")
